@@ -474,6 +474,31 @@ fn uv(spec: &MeshSpec, affine: &[f64; 6], samples: &[(u16, f64, f64, f64)]) -> V
         };
         ensure!((guv - expect_uv).norm() <= 1e-9 * uvscale * 10.0, "C20/uv/uv_value", "uv {:?}, expected the barycentric image {:?}", guv, expect_uv);
         ensure!((depth - h * size).abs() <= tol, "C20/uv/depth", "depth {depth:e}, the point was lifted by {:e}", h * size);
+        // the same physical point given in another frame together with the motion that brings it into the mesh's frame:
+        // the same UV and the same depth, so that UV + depth still rebuild the point
+        {
+            let k = (*fi as f64) * 0.37 + 0.2;
+            let frame = engeom::Iso3::new(engeom::Vector3::new(0.3 * size, -0.7 * size, 0.45 * size), engeom::Vector3::new(0.4 + k.sin(), -0.9 * k.cos(), 0.6));
+            let pre = frame.inverse() * p;
+            let via = match guarded(|| mesh.uv_with_tol(&pre, 0.2 * size, 0.3, Some(&frame))) {
+                Ok(g) => g,
+                Err(m) => return Verdict::fail("C20/uv/uv_with_tol_transform_panic", m),
+            };
+            let moved = frame * pre;
+            // the re-composed point differs from p by rounding only; near the cap or the angle limit that could flip
+            // acceptance, so only accepted answers are compared and a refusal is checked against the direct query of `moved`
+            match via {
+                Some((vuv, vdepth)) => {
+                    ensure!((vuv - expect_uv).norm() <= 1e-9 * uvscale * 10.0 + 1e-7 * uvscale, "C20/uv/transform_uv", "uv {:?} with the transform argument, expected {:?}", vuv, expect_uv);
+                    ensure!((vdepth - h * size).abs() <= tol * 10.0 + 1e-9 * frame.translation.vector.norm(), "C20/uv/transform_depth", "depth {vdepth:e} with the transform argument; the point was lifted by {:e} and the direct query gives {depth:e}", h * size);
+                }
+                None => {
+                    let direct = mesh.uv_with_tol(&moved, 0.2 * size, 0.3, None);
+                    ensure!(direct.is_none(), "C20/uv/transform_none", "uv_with_tol with a transform argument maps nothing, the transformed point itself is mapped");
+                }
+            }
+            cx.label("uv_transform_argument");
+        }
         let back = match guarded(|| mesh.uv_to_3d(&guv)) {
             Ok(b) => b,
             Err(m) => return Verdict::fail("C20/uv/uv_to_3d_panic", m),
